@@ -46,8 +46,12 @@ class Ctx:
         return os.path.join(self.work, name)
 
     def metadir(self):
-        self.md += 1
-        return os.path.join(self.work, "md%d" % self.md)
+        import threading
+        if not hasattr(self, "_lock"):
+            self._lock = threading.Lock()
+        with self._lock:
+            self.md += 1
+            return os.path.join(self.work, "md%d" % self.md)
 
     def cleanup(self):
         shutil.rmtree(self.work, ignore_errors=True)
@@ -219,13 +223,15 @@ def tlc_trace_all(ctx, spec, cfg, trace_path, mode="prop", timeout=1800, env=Non
 
 
 def validate_all(ctx, spec, cfg, lines, mode="prop", tag="a", chunk_lines=150000, env=None,
-                 is_reset=lambda ln: '"e":"reset"' in ln):
-    """One-pass validation for monitor-style trace specs (see tlc_trace_all). Returns
+                 is_reset=lambda ln: '"e":"reset"' in ln, jobs=4):
+    """One-pass validation for monitor-style trace specs (see tlc_trace_all). Chunks of about
+    `chunk_lines` lines are validated by up to `jobs` TLC processes in parallel. Returns
     (n_segments, n_events, rejects) with rejects = [Rej(segment, idx, reason)]; a line that cannot be
     consumed at all (malformed trace / impl-mode mismatch) is reported with reason 'unconsumed'."""
+    import bisect
+    from concurrent.futures import ThreadPoolExecutor
     allsegs = split_segments(lines, is_reset)
     nseg, nev = len(allsegs), len(lines) - len(allsegs)
-    rejects = []
     chunks, cur, n = [], [], 0
     for s in allsegs:
         cur.append(s)
@@ -235,11 +241,13 @@ def validate_all(ctx, spec, cfg, lines, mode="prop", tag="a", chunk_lines=150000
             cur, n = [], 0
     if cur:
         chunks.append(cur)
-    rnd = 0
-    for segs in chunks:
+
+    def one(arg):
+        ci, segs = arg
+        out, rnd = [], 0
         while segs:
             rnd += 1
-            p = ctx.path("%s.%s.%d.ndjson" % (tag, mode, rnd))
+            p = ctx.path("%s.%s.%d.%d.ndjson" % (tag, mode, ci, rnd))
             with open(p, "w") as f:
                 for s in segs:
                     f.write("\n".join(s) + "\n")
@@ -249,18 +257,22 @@ def validate_all(ctx, spec, cfg, lines, mode="prop", tag="a", chunk_lines=150000
             for s in segs:
                 starts.append(acc)
                 acc += len(s)
-            import bisect
             for ln, reason in bads:
                 i = bisect.bisect_right(starts, ln - 1) - 1
-                rejects.append(Rej(segs[i], ln - starts[i], reason))
+                out.append(Rej(segs[i], ln - starts[i], reason))
             if rej is None:
                 break
             i = bisect.bisect_right(starts, rej - 1) - 1
-            rejects.append(Rej(segs[i], rej - starts[i], "unconsumed"))
+            out.append(Rej(segs[i], rej - starts[i], "unconsumed"))
             segs = segs[i + 1:]
-            if len(rejects) > 5000:
-                ctx.notes.append("stopped collecting after 5000 rejected segments")
-                return nseg, nev, rejects
+            if len(out) > 5000:
+                break
+        return out
+
+    rejects = []
+    with ThreadPoolExecutor(max_workers=max(1, min(jobs, len(chunks) or 1))) as ex:
+        for r in ex.map(one, list(enumerate(chunks))):
+            rejects.extend(r)
     return nseg, nev, rejects
 
 
